@@ -51,6 +51,10 @@ package mount
 //@ spec mpJoin(mp string, p string) := ite(mp == ".", p, ite(p == "." || p == "", mp, mp + "/" + p))
 //@ spec inMount(r error, e error, mp string) := ite(isPathError(e), isPathError(r) && opOf(r) == opOf(e) && innerErr(r) == innerErr(e) && pathOf(r) == mpJoin(mp, pathOf(e)),
 //@        ite(isLinkError(e), isLinkError(r) && opOf(r) == opOf(e) && innerErr(r) == innerErr(e) && oldOf(r) == mpJoin(mp, oldOf(e)) && newOf(r) == mpJoin(mp, newOf(e)), r == e))
+// a failure of one step of a cross-mount rename is reported as a *LinkError naming both names as the caller gave them,
+// with the step's failure class
+//@ spec asRenameErr(r error, e error, o string, n string) := ite(e == nil, r == nil, isLinkError(r) && opOf(r) == "rename" && oldOf(r) == o && newOf(r) == n &&
+//@        innerErr(r) == ite(isPathError(e) || isLinkError(e), innerErr(e), e))
 //@ spec oMount(fs *FS, name string) := ret("mount.(*FS).Mount", 0, fs, name)
 //@ spec oSub(fs *FS, name string) := ret("mount.(*FS).Mount", 1, fs, name)
 
@@ -150,16 +154,16 @@ package mount
 //@   ensures "cross-dir" implies(VP(oldname) && VP(newname) && old(rStatErr(fs, oldname)) == nil && oldname != newname && old(rOP(fs, oldname)) != old(rOP(fs, newname)) && old(rIsDir(fs, oldname)),
 //@                      isLinkError(err) && oldOf(err) == oldname && newOf(err) == newname && errIs(err, hackpadfs.ErrNotImplemented) && world() == old(rW1(fs, oldname)))
 //@   ensures "cross-open-error" [C05 C06] implies(VP(oldname) && VP(newname) && old(rStatErr(fs, oldname)) == nil && oldname != newname && old(rOP(fs, oldname)) != old(rOP(fs, newname)) && !old(rIsDir(fs, oldname)) &&
-//@                      old(rSrcErr(fs, oldname)) != nil, inMount(err, old(rSrcErr(fs, oldname)), old(rOP(fs, oldname))) && world() == old(rW2(fs, oldname)))
+//@                      old(rSrcErr(fs, oldname)) != nil, asRenameErr(err, old(rSrcErr(fs, oldname)), oldname, newname) && world() == old(rW2(fs, oldname)))
 //@   ensures "cross-create-error" [C05 C06] implies(VP(oldname) && VP(newname) && old(rStatErr(fs, oldname)) == nil && oldname != newname && old(rOP(fs, oldname)) != old(rOP(fs, newname)) && !old(rIsDir(fs, oldname)) &&
-//@                      old(rSrcErr(fs, oldname)) == nil && old(rDstErr(fs, oldname, newname)) != nil, inMount(err, old(rDstErr(fs, oldname, newname)), old(rOP(fs, newname))))
-//@   ensures "cross-copy-error" implies(VP(oldname) && VP(newname) && old(rStatErr(fs, oldname)) == nil && oldname != newname && old(rOP(fs, oldname)) != old(rOP(fs, newname)) && !old(rIsDir(fs, oldname)) &&
+//@                      old(rSrcErr(fs, oldname)) == nil && old(rDstErr(fs, oldname, newname)) != nil, asRenameErr(err, old(rDstErr(fs, oldname, newname)), oldname, newname))
+//@   ensures "cross-copy-error" [C05 C06] implies(VP(oldname) && VP(newname) && old(rStatErr(fs, oldname)) == nil && oldname != newname && old(rOP(fs, oldname)) != old(rOP(fs, newname)) && !old(rIsDir(fs, oldname)) &&
 //@                      old(rSrcErr(fs, oldname)) == nil && old(rDstErr(fs, oldname, newname)) == nil && implements(old(rDst(fs, oldname, newname)), io.Writer) &&
-//@                      old(rCopyErr(fs, oldname, newname)) != nil, err == old(rCopyErr(fs, oldname, newname)))
+//@                      old(rCopyErr(fs, oldname, newname)) != nil, asRenameErr(err, old(rCopyErr(fs, oldname, newname)), oldname, newname))
 //@   ensures "cross-file" [C05 C06] implies(VP(oldname) && VP(newname) && old(rStatErr(fs, oldname)) == nil && oldname != newname && old(rOP(fs, oldname)) != old(rOP(fs, newname)) && !old(rIsDir(fs, oldname)) &&
 //@                      old(rSrcErr(fs, oldname)) == nil && old(rDstErr(fs, oldname, newname)) == nil && implements(old(rDst(fs, oldname, newname)), io.Writer) &&
 //@                      old(rCopyErr(fs, oldname, newname)) == nil,
-//@                      inMount(err, old(retW("hackpadfs.Remove", 0, rW4(fs, oldname, newname), rOM(fs, oldname), rOS(fs, oldname))), old(rOP(fs, oldname))))
+//@                      asRenameErr(err, old(retW("hackpadfs.Remove", 0, rW4(fs, oldname, newname), rOM(fs, oldname), rOS(fs, oldname))), oldname, newname))
 //@   nopanic
 
 // MountPoints lists exactly the mount table (the observation point of C06): every mount point once, nothing else.
